@@ -419,6 +419,114 @@ Proof.
       apply mtags_accept_remove in Hx. rewrite mtags_prepare in Hx. specialize (Ha x Hx). lia.
 Qed.
 
+(* ================================================================ UpdateRaw(oldRaw, newRaw) on the whole index state *)
+
+Lemma utags_accept_add_raw u raw : utags (u_accept_add_raw u raw) = utags u.
+Proof.
+  unfold u_accept_add_raw, utags. destruct (upadd u) as [t|]; [|reflexivity]. cbn [uents]. rewrite map_map.
+  apply map_ext. intros e. destruct (Nat.eqb (etag e) t); reflexivity.
+Qed.
+
+Theorem update_raw_good ord R ct fl rs rs' s old new :
+  (forall k, R k k = true) -> good ct rs s -> ~ In new rs -> In old rs -> length rs < max_vals ->
+  Permutation (rs ++ [new]) (old :: rs') ->
+  let '(s', o) := update_raw true true ord R ct fl s old new in
+  (o = Accepted /\ good ct rs' s') \/ (o <> Accepted /\ good ct rs s').
+Proof.
+  intros HR Hg Hnew Hold Hlen Hrs. pose proof (good_small ct rs s Hg ltac:(lia)) as Hsm.
+  destruct Hg as [[Hu Hm] [[Htu Htm] Hnd]]. unfold update_raw.
+  set (n := ntag s) in *.
+  set (fu := fun u t => let '(u', r) := u_add ord R ct u new (Some old) t in
+                        (if Z.eqb r new then u_prepare_remove true R ct u' old else u', r)).
+  set (badu := fun r => negb (Z.eqb r new) && negb (Z.eqb r old)).
+  set (fm := fun m t => m_prepare_remove true R ct (m_add ord R ct m new t) old).
+  pose proof (u_phase_shape fu badu (fun _ => true) fl (uhs s) 0 0 n) as [SU1 SU2].
+  pose proof (u_phase_not_accepted fu badu (fun _ => true) fl (uhs s) 0 0 n) as HUa.
+  destruct (u_phase fu badu (fun _ => true) fl (uhs s) 0 0 n) as [[us1 v1] st1]. cbn [fst snd] in *.
+  assert (HPu : Forall (fun u => u_cons ct rs u /\ Forall (fun x => x < n) (utags u)) (uhs s)).
+  { apply Forall_forall. intros u Hin. split; [exact (proj1 (Forall_forall _ _) Hu u Hin)|exact (proj1 (Forall_forall _ _) Htu u Hin)]. }
+  assert (HPm : Forall (fun m => m_cons ct rs m /\ Forall (fun x => x < n) (mtags m) /\ (forall g, In g (mgroups m) -> length (gvals g) < max_vals)) (mhs s)).
+  { apply Forall_forall. intros m Hin. split; [exact (proj1 (Forall_forall _ _) Hm m Hin)|].
+    split; [exact (proj1 (Forall_forall _ _) Htm m Hin)|exact (proj1 (Forall_forall _ _) Hsm m Hin)]. }
+  assert (Hnd' : NoDup rs').
+  { assert (H : NoDup (old :: rs')).
+    { eapply Permutation_NoDup; [exact Hrs|]. apply (Permutation_NoDup (Permutation_cons_append rs new)). constructor; assumption. }
+    inversion H; assumption. }
+  assert (HUrej : Forall (fun u => u_cons ct rs u /\ Forall (fun x => x < n + tags_used s) (utags u))
+                         (map (fun u => u_reject_remove (u_reject_add_raw u new)) us1)).
+  { eapply Forall2_Forall_map; [exact HPu|exact SU1|]. intros a b [Hc Ht] [->|(t & Hrange & ->)].
+    - rewrite (u_clean_reject_update a new (u_cons_clean ct rs a Hc)). split; [exact Hc|eapply Forall_lt_mono; [exact Ht|lia]].
+    - assert (Habs : row_absent_u new a).
+      { intros Hin. apply Hnew. destruct Hc as [_ Hp]. apply (Permutation_in _ Hp). exact Hin. }
+      unfold fu. rewrite (u_update_reject true ord R ct a old new t n (u_cons_clean ct rs a Hc) (utags_lt_of n a Ht) ltac:(lia) Habs).
+      split; [exact Hc|eapply Forall_lt_mono; [exact Ht|lia]]. }
+  assert (HMrej : forall ms1, Forall2 (fun m m' => m' = m \/ exists t, n + length (uhs s) + 0 <= t < n + length (uhs s) + 0 + length (mhs s) /\ m' = fm m t) (mhs s) ms1 ->
+             Forall (fun m => m_cons ct rs m /\ Forall (fun x => x < n + tags_used s) (mtags m))
+                    (map (fun m => m_reject_remove (m_reject_add m)) ms1)).
+  { intros ms1 SM. eapply Forall2_Forall_map; [exact HPm|exact SM|]. intros a b (Hc & Ht & Hs1) [->|(t & Hrange & ->)].
+    - rewrite (m_clean_reject a (m_cons_clean ct rs a Hc)). split; [exact Hc|eapply Forall_lt_mono; [exact Ht|lia]].
+    - unfold fm. rewrite m_reject_after_prepare.
+      pose proof (m_add_reject_cons ord R ct rs a new t Hc (fresh_m n a t Ht ltac:(lia)) Hnew Hs1) as Hc'.
+      rewrite (m_reject_remove_clean _ (proj2 (m_cons_clean ct rs _ Hc'))). split; [exact Hc'|].
+      eapply Forall_lt_incl; [exact Ht| |instantiate (1 := t); unfold tags_used; lia|lia].
+      intros x Hx. apply mtags_reject_add in Hx. apply (mtags_m_add ord R ct a new t). exact Hx. }
+  assert (Hsplit : forall rs0 (us : list uhash) (ms : list mhash), NoDup rs0 ->
+            Forall (fun u => u_cons ct rs0 u /\ Forall (fun x => x < n + tags_used s) (utags u)) us ->
+            Forall (fun m => m_cons ct rs0 m /\ Forall (fun x => x < n + tags_used s) (mtags m)) ms ->
+            good ct rs0 (mkI us ms (n + tags_used s))).
+  { intros rs0 us ms H0 H1 H2. unfold good, consistent, tags_ok. cbn [uhs mhs ntag].
+    split; [split|split; [split|exact H0]].
+    - eapply Forall_impl; [|exact H1]. intros a [H _]; exact H.
+    - eapply Forall_impl; [|exact H2]. intros a [H _]; exact H.
+    - eapply Forall_impl; [|exact H1]. intros a [_ H]; exact H.
+    - eapply Forall_impl; [|exact H2]. intros a [_ H]; exact H. }
+  destruct v1 as [o|].
+  - right. unfold finish. cbn [fst snd]. split; [congruence|]. apply Hsplit; [exact Hnd|exact HUrej|].
+    apply HMrej. apply Forall2_refl_l. intros; left; reflexivity.
+  - pose proof (m_phase_shape fm (fun _ => true) fl (mhs s) 0 st1 (n + length (uhs s))) as [SM1 SM2].
+    pose proof (m_phase_verdict fm (fun _ => true) fl (mhs s) 0 st1 (n + length (uhs s))) as HMv.
+    destruct (m_phase fm (fun _ => true) fl (mhs s) 0 st1 (n + length (uhs s))) as [[ms1 v2] st2]. cbn [fst snd] in *.
+    destruct HMv as [-> | ->].
+    + left. unfold finish. split; [reflexivity|]. apply Hsplit; [exact Hnd'| |].
+      * eapply Forall2_Forall_map; [exact HPu|exact (SU2 eq_refl)|]. intros a b [Hc Ht] [[E _]|(_ & t & Hrange & -> & Hb)]; [discriminate|].
+        pose proof (u_update_preserves_cons true ord R ct rs rs' a old new t HR Hc (fresh_u n a t Ht ltac:(lia)) Hnew Hold Hrs) as H.
+        unfold fu, badu in *.
+        pose proof (utags_u_add ord R ct a new (Some old) t) as Hi.
+        destruct (u_add ord R ct a new (Some old) t) as [u' r] eqn:Ea. cbn [fst snd] in *.
+        destruct (Z.eqb r new) eqn:Ern; cbn [fst snd] in *.
+        -- split; [apply H; exact Hb|]. eapply Forall_lt_incl; [exact Ht| |instantiate (1 := t); unfold tags_used; lia|lia].
+           intros x Hx. apply utags_accept_remove in Hx. rewrite utags_accept_add_raw, utags_prepare in Hx. apply Hi. exact Hx.
+        -- split; [apply H; exact Hb|]. eapply Forall_lt_incl; [exact Ht| |instantiate (1 := t); unfold tags_used; lia|lia].
+           intros x Hx. apply utags_accept_remove in Hx. rewrite utags_accept_add_raw in Hx. apply Hi. exact Hx.
+      * eapply Forall2_Forall_map; [exact HPm|exact (SM2 eq_refl)|]. intros a b (Hc & Ht & Hs1) [[E _]|(_ & t & Hrange & ->)]; [discriminate|].
+        split; [apply (m_update_preserves_cons true ord R ct rs rs' a old new t HR Hc (fresh_m n a t Ht ltac:(lia)) Hnew Hs1 Hrs)|].
+        eapply Forall_lt_incl; [exact Ht| |instantiate (1 := t); unfold tags_used; lia|lia].
+        intros x Hx. apply mtags_accept_remove in Hx. rewrite mtags_accept_add in Hx. unfold fm in Hx. rewrite mtags_prepare in Hx.
+        apply (mtags_m_add ord R ct a new t). exact Hx.
+    + right. unfold finish. cbn [fst snd]. split; [discriminate|]. apply Hsplit; [exact Hnd|exact HUrej|apply HMrej; exact SM1].
+Qed.
+
+(* ================================================================ FilterRaws on the whole index state *)
+
+Lemma mtags_filter keep m : incl (mtags (m_filter keep m)) (mtags m).
+Proof.
+  unfold m_filter, mtags. cbn [mgroups]. intros x Hx. apply in_map_iff in Hx as (g' & <- & Hg'). apply in_flat_map in Hg' as (g & Hg & Hg').
+  destruct (filter_group keep (gkey g) (gvals g)) as [[k vs]|]; [|contradiction]. destruct Hg' as [<-|[]]. cbn [gtag]. apply in_map. exact Hg.
+Qed.
+
+Theorem filter_raws_good ct rs keep s :
+  good ct rs s -> length rs <= max_vals -> good ct (filter keep rs) (filter_raws keep s).
+Proof.
+  intros Hg Hlen. pose proof (good_small ct rs s Hg Hlen) as Hsm. destruct Hg as [[Hu Hm] [[Htu Htm] Hnd]].
+  unfold filter_raws, good, consistent, tags_ok. cbn [uhs mhs ntag].
+  split; [split|split; [split|apply NoDup_filter; exact Hnd]].
+  - apply Forall_map. eapply Forall_impl; [|exact Hu]. intros a Ha. apply u_filter_preserves_cons. exact Ha.
+  - apply Forall_map. unfold small in Hsm. rewrite Forall_forall in *. intros m Hin. apply m_filter_preserves_cons; [apply Hm|apply Hsm]; exact Hin.
+  - apply Forall_map. eapply Forall_impl; [|exact Htu]. intros a Ha. rewrite Forall_forall in *. intros x Hx. apply Ha.
+    unfold utags, u_filter in *. cbn [uents] in Hx. apply (incl_filter_map etag (fun e => keep (eraw e)) (uents a)). exact Hx.
+  - apply Forall_map. eapply Forall_impl; [|exact Htm]. intros a Ha. rewrite Forall_forall in *. intros x Hx. apply Ha. apply (mtags_filter keep a). exact Hx.
+Qed.
+
 (* ================================================================ contents of rows outside the table do not matter *)
 
 Lemma u_cons_frame ct ct' rs u : (forall r, In r rs -> ct' r = ct r) -> u_cons ct rs u -> u_cons ct' rs u.
@@ -516,8 +624,8 @@ Qed.
 
 (* ================================================================ every reachable index state *)
 
-(* histories of the table's index object: indexes created at any time over the current rows; AddRaw / RemoveRaw /
-   single-column UpdateRaw with ANY failure step, entry order and reflexive visibility relation; the contents of
+(* histories of the table's index object - the complete operation alphabet of DataIndexes: indexes created at any time over the
+   current rows; AddRaw / RemoveRaw / UpdateRaw(old,new) / single-column UpdateRaw with ANY failure step; FilterRaws, entry order and reflexive visibility relation; the contents of
    rows that are not in the table may change arbitrarily (NewRow).  rs = the rows currently in the table. *)
 Inductive reach : (Z -> row) -> list Z -> istate -> Prop :=
 | r_empty ct : reach ct [] empty_istate
@@ -530,6 +638,11 @@ Inductive reach : (Z -> row) -> list Z -> istate -> Prop :=
     reach ct (match snd (add_raw ord R ct fl s raw) with Accepted => rs ++ [raw] | _ => rs end) (fst (add_raw ord R ct fl s raw))
 | r_remove R ct fl rs rs' s raw : (forall k, R k k = true) -> reach ct rs s -> Permutation rs (raw :: rs') ->
     reach ct (match snd (remove_raw true true R ct fl s raw) with Accepted => rs' | _ => rs end) (fst (remove_raw true true R ct fl s raw))
+| r_update_row ord R ct fl rs rs' s old new : (forall k, R k k = true) -> reach ct rs s -> ~ In new rs -> In old rs ->
+    length rs < max_vals -> Permutation (rs ++ [new]) (old :: rs') ->
+    reach ct (match snd (update_raw true true ord R ct fl s old new) with Accepted => rs' | _ => rs end)
+          (fst (update_raw true true ord R ct fl s old new))
+| r_filter ct rs s keep : reach ct rs s -> length rs <= max_vals -> reach ct (filter keep rs) (filter_raws keep s)
 | r_update_col ord R ct fl rs s raw c v : (forall k, R k k = true) -> reach ct rs s -> In raw rs -> c < length (ct raw) ->
     length rs <= max_vals ->
     reach (snd (update_col true true ord R ct fl s raw c v)) rs (fst (fst (update_col true true ord R ct fl s raw c v))).
@@ -550,6 +663,10 @@ Proof.
   - pose proof (remove_raw_good R ct fl rs rs' s raw H IHreach H1) as Hg.
     destruct (remove_raw true true R ct fl s raw) as [s' o]. cbn [fst snd]. destruct Hg as [[-> Hg]|[Ho Hg]]; [exact Hg|].
     destruct o; [congruence|exact Hg|exact Hg].
+  - pose proof (update_raw_good ord R ct fl rs rs' s old new H IHreach H1 H2 H3 H4) as Hg.
+    destruct (update_raw true true ord R ct fl s old new) as [s' o]. cbn [fst snd]. destruct Hg as [[-> Hg]|[Ho Hg]]; [exact Hg|].
+    destruct o; [congruence|exact Hg|exact Hg].
+  - apply filter_raws_good; assumption.
   - pose proof (update_col_good ord R ct fl rs s raw c v H IHreach H1 H2 H3) as Hg.
     destruct (update_col true true ord R ct fl s raw c v) as [[s' o] ctn]. cbn [fst snd]. exact (proj1 Hg).
 Qed.
